@@ -1,6 +1,7 @@
 package rules
 
 import (
+	"fmt"
 	"go/types"
 
 	"golang.org/x/tools/go/ssa"
@@ -255,5 +256,58 @@ func runC06(c *Ctx) {
 			return ok && callTo(hbh)(call)
 		}, anyVal))
 		c.guarded(gb, equalIs("blockHeader.BlockHash() vs blockHash", hashCmp, true), 1, "workManager.Query", queries, 1, gDominate)
+	})
+
+	c.rule("C06.O2", "the ban of the sender of an invalid block is recorded: "+banRecordedDoc, func() { c.banRecorded() })
+
+	c.rule("C06.V2", "one key for the requested block: the inventory vector built from the requested hash (wire.NewInvVect(_, &blockHash)) is the key of BlockCache.Get, the key of BlockCache.Put and the vector put into the getdata request, so a cached or fetched block is always filed under the hash the caller asked for", func() {
+		gb := c.fn(fnGetBlock)
+		lruGet := c.method("cache/lru", "Cache", "Get")
+		lruPut := c.method("cache/lru", "Cache", "Put")
+		bc := c.field("neutrino", "ChainService", "BlockCache")
+		newInv := c.funcObj(pWire, "NewInvVect")
+		addInv := c.method(pWire, "MsgGetData", "AddInvVect")
+		invs := find(gb, callTo(newInv))
+		okInv := len(invs) == 1
+		var inv ssa.Value
+		if okInv {
+			inv = invs[0].(ssa.Value)
+			// second argument: address of the cell holding parameter blockHash
+			a := argsOf(invs[0])
+			al, isAlloc := a[1].(*ssa.Alloc)
+			okInv = false
+			if isAlloc {
+				for _, st := range ir.StoresTo(al) {
+					if st.Val == ssa.Value(gb.Params[1]) {
+						okInv = true
+					}
+				}
+			}
+		}
+		c.verdict(okInv, c.nm(gb)+" | inventory vector built from the requested hash", c.P.Pos(gb.Pos()), "wire.NewInvVect(invType, &blockHash)", "the inventory vector is not built from the requested block hash")
+		if !okInv {
+			return
+		}
+		isKey := func(v ssa.Value) bool {
+			u, ok := v.(*ssa.UnOp)
+			return ok && u.X == inv
+		}
+		var bad, sites []string
+		n := 0
+		for _, x := range find(gb, anyOf(withArg(callTo(lruGet), 0, loadsField(bc)), withArg(callTo(lruPut), 0, loadsField(bc)))) {
+			n++
+			sites = append(sites, c.at(x))
+			if !isKey(argsOf(x)[0]) {
+				bad = append(bad, "cache access at "+c.at(x)+" uses another key")
+			}
+		}
+		adds := find(gb, callTo(addInv))
+		for _, x := range adds {
+			sites = append(sites, c.at(x))
+			if argsOf(x)[0] != inv {
+				bad = append(bad, "getdata at "+c.at(x)+" requests another inventory vector")
+			}
+		}
+		c.verdict(len(bad) == 0 && n >= 2 && len(adds) == 1, c.nm(gb)+" | cache get, cache put and getdata use the same inventory vector", c.P.Pos(gb.Pos()), "Get(*inv), Put(*inv, ..), AddInvVect(inv)", join(bad)+fmt.Sprintf(" (%d cache accesses, %d getdata vectors)", n, len(adds)), sites...)
 	})
 }
